@@ -1,19 +1,42 @@
 import LoguruModel.Datetime.Model
+import LoguruModel.Datetime.Cache
 import LoguruModel.Driver
 open Datetime Py
+
+def showOut (r : Except Err Out) (sep : String) : String :=
+  match r with
+  | .ok (.text t) => "ok" ++ sep ++ encTok t
+  | .ok (.strftime utc sp) => "strftime" ++ sep ++ (if utc then "1" else "0") ++ sep ++ encTok sp
+  | .error e => "err" ++ sep ++ toString e
+
+def parseDt (y mo d h mi s us off tz : String) : Option Dt :=
+  match y.toInt?, mo.toInt?, d.toInt?, h.toInt?, mi.toInt?, s.toInt?, us.toInt?, off.toInt?, decTok tz with
+  | some y, some mo, some d, some h, some mi, some s, some us, some off, some tz =>
+    some { year := y, month := mo, day := d, hour := h, minute := mi, second := s,
+           microsecond := us, offsetUs := off, tzname := tz }
+  | _, _, _, _, _, _, _, _, _ => none
+
+/-- one call of a history: `spec,y,mo,d,h,mi,s,us,off,tz` -/
+def parseCall (tok : String) : Option (Str × Dt) :=
+  match tok.splitOn "," with
+  | [spec, y, mo, d, h, mi, s, us, off, tz] =>
+    match decTok spec, parseDt y mo d h mi s us off tz with
+    | some spec, some dt => some (spec, dt)
+    | _, _ => none
+  | _ => none
 
 def step (line : String) : String :=
   match line.splitOn " " with
   | ["fmt", spec, y, mo, d, h, mi, s, us, off, tz] =>
-    match decTok spec, y.toInt?, mo.toInt?, d.toInt?, h.toInt?, mi.toInt?, s.toInt?, us.toInt?, off.toInt?, decTok tz with
-    | some spec, some y, some mo, some d, some h, some mi, some s, some us, some off, some tz =>
-      let dt : Dt := { year := y, month := mo, day := d, hour := h, minute := mi, second := s,
-                       microsecond := us, offsetUs := off, tzname := tz }
-      match formatDt spec dt with
-      | .ok (.text t) => "ok " ++ encTok t
-      | .ok (.strftime utc sp) => "strftime " ++ (if utc then "1 " else "0 ") ++ encTok sp
-      | .error e => "err " ++ toString e
-    | _, _, _, _, _, _, _, _, _, _ => "bad-op"
+    match decTok spec, parseDt y mo d h mi s us off tz with
+    | some spec, some dt => showOut (formatDt spec dt) " "
+    | _, _ => "bad-op"
+  | "hist" :: size :: calls =>
+    -- a history of calls through the two-stage model with an LRU memoiser of the given size (`-` = unbounded)
+    let maxsize : Option (Option Nat) := if size == "-" then some none else size.toNat?.map some
+    match maxsize, calls.mapM parseCall with
+    | some ms, some cs => ";".intercalate ((runHistory id (lruPolicy ms) [] cs).map (showOut · ":"))
+    | _, _ => "bad-op"
   | ["civil", z] =>
     match z.toInt? with
     | some z =>
